@@ -175,4 +175,16 @@ theorem C01_spec_evidence_is_intersection (P : Prog) (roots : List Nat) (evidenc
 example : negOf C08.exProg [1, 2, 0] [(0, true)] 2 = 3/25 ∧ numOf C08.exProg [1, 2, 0] [(0, true)] 2 = 9/50 ∧
     zOf C08.exProg [1, 2, 0] [(0, true)] = 3/10 := by decide +kernel
 
+/-- **More evidence, less mass**: under valid annotations, appending one literal to the evidence list (over a fixed root
+    set) never increases the probability of the evidence. -/
+theorem C01_spec_more_evidence_less_mass (P : Prog) (roots : List Nat) (evidence : List (Nat × Bool)) (q : Nat) (v : Bool)
+    (h : ∀ g ∈ P.groups, ValidGroup g) :
+    zOf P roots (evidence ++ [(q, v)]) ≤ zOf P roots evidence := by
+  obtain ⟨ht, hf⟩ := C01_spec_evidence_is_intersection P roots evidence q
+  obtain ⟨a, b, _⟩ := C01_spec_is_probability P roots evidence q h
+  have tp := C01_spec_total_probability P roots evidence q
+  cases v
+  · rw [hf]; linarith
+  · rw [ht]; exact b
+
 end ProbLogProofs.C01
